@@ -141,6 +141,34 @@ def gen_two_prefix_case(rng):
     return doc.encode("utf-8"), exps, {"fmt": "rss", "used": []}
 
 
+def gen_default_then_prefix_case(rng):
+    """ONE unrecognised namespace URI used twice: as the DEFAULT namespace declared on an element itself, and through a prefix declared on another
+    element (before or after it, in the feed and in the entry): the unprefixed use is exposed under the bare local name, the prefixed one under
+    prefix_local -- whatever was looked up first"""
+    uri = rng.choice(["urn:example:extension", "http://unknown.example/ns/geo#", "tag:example.org,2024:ext"])
+    pfx = rng.choice(["geo2", "ext", "n1", "zz"])
+    l1, l2, l3 = rng.sample([l for l in LOCALS if l.lower() not in HANDLED_START and l.lower() not in HANDLED_END], 3)
+    if len({l1.lower(), l2.lower(), l3.lower()}) < 3:
+        return None
+    bare = '<%s xmlns="%s">bare</%s>' % (l1, uri, l1)
+    pre = '<%s:%s>prefixed</%s:%s>' % (pfx, l2, pfx, l2)
+    order = rng.choice(["bare-first", "prefixed-first"])
+    where = rng.choice(["item-decl", "root-decl"])
+    root_decl = ' xmlns:%s="%s"' % (pfx, uri) if where == "root-decl" else ""
+    item_decl = ' xmlns:%s="%s"' % (pfx, uri) if where == "item-decl" else ""
+    if order == "bare-first":
+        doc = '<rss version="2.0"%s><channel>%s<item%s>%s<%s xmlns="%s">again</%s></item></channel></rss>' % (root_decl, bare, item_decl, pre, l3, uri, l3)
+        # (the 5th field names the key the strict back end is KNOWN to use instead when a prefix for the same URI has been declared before: see known_findings)
+        exps = [("feed", l1.lower(), "text", "bare") + ((("%s_%s" % (pfx, l1)).lower(),) if where == "root-decl" else ()),
+                ("entry", ("%s_%s" % (pfx, l2)).lower(), "text", "prefixed"), ("entry", l3.lower(), "text", "again", ("%s_%s" % (pfx, l3)).lower())]
+    else:
+        if where == "item-decl":
+            return None
+        doc = '<rss version="2.0"%s><channel>%s<item>%s</item></channel></rss>' % (root_decl, pre.replace("prefixed", "first"), bare)
+        exps = [("feed", ("%s_%s" % (pfx, l2)).lower(), "text", "first"), ("entry", l1.lower(), "text", "bare", ("%s_%s" % (pfx, l1)).lower())]
+    return doc.encode("utf-8"), exps, {"fmt": "rss", "used": []}
+
+
 def check_case(doc, exps, meta, loose):
     r, _log = tr.traced_parse(doc, {"content-location": BASE, "content-type": "application/xml; charset=utf-8"}, loose=loose)
     w = {"doc": doc, "exps": exps, "meta": meta, "loose": loose}
@@ -148,11 +176,16 @@ def check_case(doc, exps, meta, loose):
         return []
     fs = []
     be = "loose" if loose else "strict"
-    for where, key, kind, val in exps:
+    for e in exps:
+        where, key, kind, val = e[:4]
         d = r.feed if where == "feed" else (r.entries[0] if r.entries else {})
         got = dict.get(d, key, None)
         if kind == "text":
-            if got != val:
+            if got != val and len(e) > 4 and not loose and dict.get(d, e[4], None) == val:
+                fs.append(Finding(("probe", "strict-unprefixed-element-filed-under-declared-prefix"), w,
+                                  "%s[%r] is absent and %s[%r] = %r: an UNPREFIXED element of a default namespace is filed under a prefix the document binds to the same unrecognised URI (strict back end: expat "
+                                  "hands over no qualified names, the reverse lookup answers the first prefix declared for the URI)" % (where, key, where, e[4], val), observed=e[4], expected=key))
+            elif got != val:
                 fs.append(Finding(("key", where, "text", be), w, "%s[%r] = %r, expected the element text %r (%s back end)" % (where, key, got, val, be), observed=got, expected=val))
         else:
             g = dict(got) if isinstance(got, dict) else got
@@ -188,8 +221,8 @@ def search(ctx, focus=None):
     failures, n, distinct = [], 0, set()
     for _ in range(ctx.n(1000, 30000)):
         r0 = rng.random()
-        if r0 < 0.2:
-            c = gen_rebind_case(rng) if r0 < 0.1 else gen_two_prefix_case(rng)
+        if r0 < 0.27:
+            c = gen_rebind_case(rng) if r0 < 0.1 else gen_two_prefix_case(rng) if r0 < 0.2 else gen_default_then_prefix_case(rng)
             if c is None:
                 continue
             d, exps, meta = c
@@ -202,7 +235,7 @@ def search(ctx, focus=None):
     return {"evaluations": n, "distinct_nontrivial": len(distinct), "failures": failures,
             "rule": "documents with 1-4 extension elements: namespace URI from the %d-entry documented table (case-varied in 30%%) or unknown URIs x document prefix "
                     "{canonical, other} x local names (incl. mixed case, dots, dashes, 'keywords') x {text, attributes} x {feed, entry} x RSS/Atom x both back "
-                    "ends; one recognised URI under two document prefixes (declared on the root / the item / the element itself); oracle: key = lower(canonical-or-document prefix + '_' + local) holds the text / the attribute dict, and result.namespaces maps the "
+                    "ends; one recognised URI under two document prefixes (declared on the root / the item / the element itself); one UNRECOGNISED URI used as a default namespace declared on the element itself and through a prefix, in either order; oracle: key = lower(canonical-or-document prefix + '_' + local) holds the text / the attribute dict, and result.namespaces maps the "
                     "(canonicalised) prefix to the declared URI; elements with dedicated handlers excluded via the frozen handler-name table" % len(URIS),
             "samples": [{"doc": gen_case(vlib.random.Random(7))[0].decode()[:300]}]}
 
